@@ -124,6 +124,41 @@ Theorem C18_avail_hypotheses_satisfiable : exists h c,
 Proof. exists h_avail, c_avail. exact avail_nonvacuous. Qed.
 Print Assumptions C18_avail_hypotheses_satisfiable.
 
+(* "a request whose parameters all came from a link": every declared parameter, identified by its (location, name) pair -
+   the same name may be declared in several locations -, was provided by a link *)
+Theorem C18_avail_only_if_every_located_parameter_linked_partial : forall h c st,
+  wf h = true -> In c h -> is_last h c = true ->
+  prefix_region_all h c = true -> parent_not_3xx h c = true -> override_faithful c = true ->
+  reported (ensure_resource_availability h c st) = true ->
+  forall loc name, In (loc, name) (n_params c) -> In (loc, name) (n_linked c).
+Proof. exact avail_only_if_located_linked. Qed.
+Print Assumptions C18_avail_only_if_every_located_parameter_linked_partial.
+
+(* no hypothesis on the history: a declared parameter whose OWN container reports no override of its name stops the report,
+   whatever the containers of the other locations hold *)
+Theorem C18_avail_needs_own_container : forall h c st p,
+  In p (n_params c) -> param_overridden c p = false -> reported (ensure_resource_availability h c st) = false.
+Proof. exact avail_needs_own_container. Qed.
+Print Assumptions C18_avail_needs_own_container.
+
+(* SENTINEL: the name-only rule (one flat set of overridden names) is not the code and breaks the property inside every
+   region: POST /orgs 201 -> GET /orgs/{id}/members?id=.. 404, path id from the link, query id generated *)
+Theorem C18_avail_name_only_sentinel_refuted : exists h c st,
+  wf h = true /\ In c h /\ is_last h c = true /\ prefix_region_all h c = true /\ parent_not_3xx h c = true /\
+  override_faithful c = true /\
+  reported (ensure_resource_availability_by_name h c st) = true /\ avail_allowed h c st = false /\
+  ensure_resource_availability h c st = Pass.
+Proof. exists h_samename, c_samename, 404. exact avail_by_name_refuted. Qed.
+Print Assumptions C18_avail_name_only_sentinel_refuted.
+
+(* the same request with both ids from the link satisfies the hypotheses, is reported and allowed *)
+Theorem C18_avail_same_name_hypotheses_satisfiable : exists h c,
+  wf h = true /\ In c h /\ is_last h c = true /\ prefix_region_all h c = true /\
+  parent_not_3xx h c = true /\ override_faithful c = true /\
+  ensure_resource_availability h c 404 = Reported 1 /\ avail_allowed h c 404 = true.
+Proof. exists h_samename_linked, c_samename_linked. exact avail_samename_nonvacuous. Qed.
+Print Assumptions C18_avail_same_name_hypotheses_satisfiable.
+
 (* neither check accuses a case when no recorded case is on the same resource *)
 Theorem C18_unrelated_never_reported_partial : forall h c st,
   wf h = true -> In c h -> is_last h c = true ->
